@@ -3,6 +3,7 @@ package util
 import (
 	"bytes"
 	"errors"
+	"io"
 	"io/ioutil"
 	"os"
 	"path"
@@ -92,11 +93,16 @@ func (f *fileStorage) Get(key string) ([]byte, error) {
 	var b bytes.Buffer
 	var buffer = make([]byte, 32)
 	for {
-		n, _ := file.Read(buffer)
+		n, err := file.Read(buffer)
 		if n > 0 {
 			b.Write(buffer[:n])
-		} else {
+		}
+		if err == io.EOF {
 			break
+		}
+		if err != nil {
+			// the bytes read so far are not the value
+			return nil, err
 		}
 	}
 
